@@ -54,6 +54,11 @@ def parseCfg (e : String) : Option Cfg :=
   | [i, t, n, s, b] => some { id := i.toNat!, time := t.toNat!, name := n, ns := s, sel := b == "1" }
   | _ => none
 
+def parseWl (e : String) : Option Wl :=
+  match fieldsOf e with
+  | [i, t, u] => some { id := i.toNat!, time := t.toNat!, uid := u }
+  | _ => none
+
 def parseKey (e : String) : Option ShardKey :=
   match fieldsOf e with
   | [p, c] => some { provider := p, cluster := c }
@@ -101,6 +106,8 @@ def stepCmp (toks : List String) : String :=
     showGroups (groupTies (fun a b => cfgCmp a b == .eq) (·.id) (sortConfigByCreationTime ((elems l).filterMap parseCfg)))
   | ["dr", l] =>
     showGroups (groupTies (fun a b => drCmp a b == .eq) (·.id) (sortConfigBySelectorAndCreationTime ((elems l).filterMap parseCfg)))
+  | ["wl", l] =>
+    joinElems ((sortWorkloadsByCreationTime ((elems l).filterMap parseWl)).map (fun w => toString w.id))
   | ["keys", l] =>
     joinElems ((shardKeys ((elems l).filterMap parseKey)).map (fun k => enc k.provider ++ ";" ++ enc k.cluster))
   | ["set", l] => encList ((sortedList (decList l)).eraseDups)
